@@ -86,17 +86,18 @@ def wcmatch_vs_spec(item):
     out = []
     cyclic = trees.is_cyclic(spec)
     with trees.Tree(spec) as t:
-        for incs, excs, dincs, dexcs, flags in cases:
+        for case_no, (incs, excs, dincs, dexcs, flags) in enumerate(cases):
             if globrun.too_many_timeouts():
                 break          # this worker has hit the alarm repeatedly: the violations are reported, the rest is not run
             if cyclic and flags & WM.SL:
                 continue
+            root_arg = t.root + ('/' if case_no % 3 == 2 else '')          # the same tree, the root spelled with a trailing separator
             minus = bool(flags & WM.M)
             fp, dp = render_list(incs, excs, minus), render_list(dincs, dexcs, minus)
             base = dict(tree=tname, pattern=fp, exclude=dp, flags=flags, fl=f'{flags:#x}')
             try:
                 want, wskip = spec_wcmatch(t.root, incs, excs, dincs, dexcs, flags)
-                w = WM.WcMatch(t.root, fp, dp, flags=flags)
+                w = WM.WcMatch(root_arg, fp, dp, flags=flags)
                 got = with_alarm(lambda: w.match())
                 rel = sorted(os.path.relpath(x, t.root) for x in got)
                 bad = []
